@@ -774,17 +774,10 @@ class VM:
         a = self.popb()
         b = self.popb()
         n = max(len(a), len(b))
-        if len(a) != len(b):
-            # the docs say "pads the shorter value with x00" without naming the side
-            a2, b2 = a.ljust(n, b'\0'), b.ljust(n, b'\0')
-            a3, b3 = a.rjust(n, b'\0'), b.rjust(n, b'\0')
-            r1 = bytes(f(p, q) for p, q in zip(a2, b2))
-            r2 = bytes(f(p, q) for p, q in zip(a3, b3))
-            if r1 != r2:
-                raise Unspec('padding side of bitwise op on unequal lengths')
-            self.push(r1)
-            return
-        self.push(bytes(f(p, q) for p, q in zip(a, b)))
+        # "Pads the shorter length value with x00": the padding is appended (the value is extended at its end), which is
+        # the reading under which the result keeps the longer item's byte positions; standing decision, see DESIGN 2.4
+        a2, b2 = a.ljust(n, b'\0'), b.ljust(n, b'\0')
+        self.push(bytes(f(p, q) for p, q in zip(a2, b2)))
 
     def op_XOR(self, rd, rd1):
         self.bitop(lambda p, q: p ^ q)
